@@ -9,7 +9,15 @@ the closed forms with `log`).  One reply line per request line.
   marg  <C as r c v…> <R as r c v…>          → C + R
   elp   y m v r                               → quad  bits(Float expectedLogProb)   (IEEE-754 bit pattern as a natural number)
   lm    y m v r                               → quad  v+r  bits(Float logMarginal)
-  route (call|forward) nl na nn               → none | l:a:ν …   (nn = -1: no noise kwarg; N = no noise)
+  route (call|forward) nl na nn [mask]        → none | l:a:ν …   (nn = -1: no noise kwarg; N = no noise kwarg; mask char k = 0:
+                                                 entry k of the noise list is `None` → `l:a:None`)
+  getters                                     → Class.name:writes …   (regenerated table of property getters)
+  hetero n lb c [ν…] μ₁…μₙ                     → bits(R₁₁) … bits(Rₙₙ) offdiag0   (Float; `lb` = lower bound of the constraint)
+  heterotask t k lb idx… μ₁…μ_t               → bits of the k diagonal entries of one point
+  heteroprotocol                              → mode protocol of HeteroskedasticNoise.forward
+  dir eps c N labels…                         → N bits (noise row c) N bits (transformed targets row c)
+  dirshaped eps epsD ncS ncI c N labels… l [s] n c [labels…] → rows  bits(diag R) offdiag0
+  miss (elp|lm) (nan|y) m v r                 → -2·(polynomial part, 0 when missing)  bits(Float value)
 -/
 import GPVerif.Model.Noise
 import GPVerif.Gen.NoiseModels
@@ -116,15 +124,141 @@ def stepScalar (which : String) (ts : List String) : Option String := do
 
 def stepRoute (ts : List String) : Option String := do
   match ts with
-  | [which, nl, na, nn] =>
+  | which :: nl :: na :: nn :: maskTs =>
     let nl ← nl.toNat?
     let na ← na.toNat?
     let nn ← nn.toInt?
-    let noise : Option (List Nat) := if nn < 0 then none else some (List.range nn.toNat)
+    -- optional mask: character k is `0` when entry k of the noise list is `None`
+    let mask : List Char := match maskTs with
+      | [m] => m.toList
+      | _ => []
+    if maskTs.length > 1 then none else
+    let entry (k : Nat) : Option Nat := if mask.getD k '1' = '0' then none else some k
+    let noise : Option (List (Option Nat)) := if nn < 0 then none else some ((List.range nn.toNat).map entry)
     match (if which = "forward" then listForwardRoute else listCallRoute) (List.range nl) (List.range na) noise with
     | none => some "none"
-    | some out => some (" ".intercalate (out.map fun (l, a, ν) =>
-        s!"{l}:{a}:{match ν with | none => "N" | some k => toString k}"))
+    | some out => some (" ".intercalate (out.map fun (l, a, e) =>
+        s!"{l}:{a}:{match e with | none => "N" | some none => "None" | some (some k) => toString k}"))
+  | _ => none
+
+/-- `getters` → the regenerated table of property getters: `Class.name:write,write …` -/
+def stepGetters : Option String :=
+  some (" ".intercalate (propertyGetters.map fun (g, ws) => s!"{g}:{",".intercalate (ws.map fun w => w.replace " " "")}"))
+
+/-! ### second part: HeteroskedasticNoise, Dirichlet, missing observations (Float where a `log` / constraint transform is involved) -/
+
+instance : Zero Float := ⟨0.0⟩
+instance : One Float := ⟨1.0⟩
+
+/-- `GreaterThan(lb).transform`: `softplus(x) + lb`. -/
+def softplusLB (lb x : Float) : Float := Float.log (1 + Float.exp x) + lb
+
+def bitsOf (x : Float) : String := toString x.toBits.toNat
+
+def floatVec (l : List Rat) (n : Nat) : Fin n → Float := fun i => ratToFloat l.toArray[i.1]!
+
+def natFn (l : List Nat) : Nat → Nat := fun i => l.toArray[i]!
+
+/-- diagonal as bit patterns, then `1` when every off-diagonal entry is exactly zero -/
+def showDiagF {n : Nat} (A : DMat n n Float) : String :=
+  let rows := A.toRows
+  let idx := List.range n
+  let diag := idx.map fun i => bitsOf ((rows.getD i []).getD i 0.0)
+  let off := idx.all fun i => idx.all fun j => i == j || ((rows.getD i []).getD j 0.0) == 0.0
+  " ".intercalate (diag ++ [if off then "offdiag0" else "OFFDIAG-NONZERO"])
+
+/-- `hetero n lb c [ν…] μ₁…μₙ` -/
+def stepHetero (ts : List String) : Option String := do
+  match ts with
+  | n :: lb :: rest =>
+    let n ← n.toNat?
+    let lb ← parseRat? lb
+    let (call, rest) ← takeCall n rest
+    if rest.length ≠ n then none else
+    let μ ← parseRats? rest
+    let callF : Option (Fin n → Float) := call.map fun ν => fun i => ratToFloat (ν i)
+    some (showDiagF (heteroForward (softplusLB (ratToFloat lb)) n (floatVec μ n) callF))
+  | _ => none
+
+/-- `heterotask t k lb idx₁…idx_k μ₁…μ_t` (one point of a multi-output noise model) -/
+def stepHeteroTask (ts : List String) : Option String := do
+  match ts with
+  | t :: k :: lb :: rest =>
+    let t ← t.toNat?
+    let k ← k.toNat?
+    let lb ← parseRat? lb
+    if rest.length ≠ k + t then none else
+    let idx ← (rest.take k).mapM String.toNat?
+    if idx.any (· ≥ t) then none else
+    let μ ← parseRats? (rest.drop k)
+    if h : t = 0 then none else
+    let idxF : Fin k → Fin t := fun a => ⟨idx.toArray[a.1]! % t, Nat.mod_lt _ (Nat.pos_of_ne_zero h)⟩
+    let d := heteroTaskDiagGen (softplusLB (ratToFloat lb)) (floatVec μ t) idxF
+    some (" ".intercalate ((List.finRange k).map fun a => bitsOf (d a)))
+  | _ => none
+
+/-- `dir eps c N l₁…l_N` → noise row `c` (N bit patterns) then transformed-target row `c` (N bit patterns) -/
+def stepDir (ts : List String) : Option String := do
+  match ts with
+  | eps :: c :: N :: rest =>
+    let eps ← parseRat? eps
+    let c ← c.toNat?
+    let N ← N.toNat?
+    if rest.length ≠ N then none else
+    let ls ← rest.mapM String.toNat?
+    let e := ratToFloat eps
+    let noise := (List.range N).map fun i => bitsOf (dirNoiseEntryGen Float.log 0.5 e (natFn ls) c i)
+    let targ := (List.range N).map fun i => bitsOf (dirTargetEntryGen Float.log 0.5 e (natFn ls) c i)
+    some (" ".intercalate (noise ++ targ))
+  | _ => none
+
+/-- `dirshaped eps epsDefault ncSelf ncInferred c N l₁…l_N  l [s]  n  c [m₁…mₙ]` → rows of the call-time noise, diagonal of `R`
+(class `c`), off-diagonal flag -/
+def stepDirShaped (ts : List String) : Option String := do
+  match ts with
+  | eps :: epsD :: ncS :: ncI :: c :: N :: rest =>
+    let eps ← parseRat? eps
+    let epsD ← parseRat? epsD
+    let ncS ← ncS.toNat?
+    let ncI ← ncI.toNat?
+    let c ← c.toNat?
+    let N ← N.toNat?
+    if rest.length < N then none else
+    let ls ← (rest.take N).mapM String.toNat?
+    let rest := rest.drop N
+    let (learned, rest) ← (match rest with
+      | "0" :: r => some (none, r)
+      | "1" :: s :: r => (parseRat? s).map fun s => (some (ratToFloat s), r)
+      | _ => none : Option (Option Float × List String))
+    match rest with
+    | n :: rest =>
+      let n ← n.toNat?
+      let call ← (match rest with
+        | ["0"] => some none
+        | "1" :: ms => if ms.length = n then (ms.mapM String.toNat?).map some else none
+        | _ => none : Option (Option (List Nat)))
+      let R := dirichletShaped Float.log 0.5 (ratToFloat eps) (ratToFloat epsD) (natFn ls) N c learned n (call.map natFn)
+      some s!"rows={dirCallNumClasses ncS ncI} {showDiagF R}"
+    | _ => none
+  | _ => none
+
+/-- `miss (elp|lm) (nan|y) m v r` → exact polynomial part (as for `elp` / `lm`; `0` when missing) and the Float value -/
+def stepMiss (ts : List String) : Option String := do
+  match ts with
+  | which :: y :: rest =>
+    let yq ← (if y = "nan" then some none else (parseRat? y).map some : Option (Option Rat))
+    match ← parseRats? rest with
+    | [m, v, r] =>
+      let (fm, fv, fr) := (ratToFloat m, ratToFloat v, ratToFloat r)
+      let yf := yq.map ratToFloat
+      let fill := missingFillValue
+      if which = "elp" then
+        if r = 0 then none else
+        some s!"{showRat (-2 * missingElpGen (fun _ => (0 : Rat)) 0 (1 / 2) fill yq m v r)} {bitsOf (missingElpGen Float.log log2pi 0.5 (ratToFloat fill) yf fm fv fr)}"
+      else
+        if v + r = 0 then none else
+        some s!"{showRat (-2 * missingLmGen (fun _ => (0 : Rat)) 0 (1 / 2) fill yq m v r)} {bitsOf (missingLmGen Float.log log2pi 0.5 (ratToFloat fill) yf fm fv fr)}"
+    | _ => none
   | _ => none
 
 def step (line : String) : String :=
@@ -136,6 +270,13 @@ def step (line : String) : String :=
     | "elp" :: ts => stepScalar "elp" ts
     | "lm" :: ts => stepScalar "lm" ts
     | "route" :: ts => stepRoute ts
+    | ["getters"] => stepGetters
+    | "hetero" :: ts => stepHetero ts
+    | "heterotask" :: ts => stepHeteroTask ts
+    | "dir" :: ts => stepDir ts
+    | "dirshaped" :: ts => stepDirShaped ts
+    | "miss" :: ts => stepMiss ts
+    | ["heteroprotocol"] => some (" ".intercalate heteroProtocolGen)
     | _ => none
   r.getD "bad-request"
 
